@@ -311,6 +311,17 @@ func genEntityOpt(r *vh.Rand, second bool, forcedName string) *entityDecl {
 			d.Status = append(d.Status, pre)
 		}
 	}
+	// explicit option numbers: the parser accepts `status X { number = 5 }`; visitEnumNode numbers by
+	// POSITION, so a declared number must not show in the enum (only a first status that ends in
+	// UNSPECIFIED and declares a number loses slot 0: malformed stream)
+	if r.Chance(25) {
+		d.StatusNum = make([]int, len(d.Status))
+		for i := range d.Status {
+			if r.Chance(60) && !(i == 0 && strings.HasSuffix(d.Status[0], "UNSPECIFIED")) {
+				d.StatusNum[i] = vh.Pick(r, []int{1, 2, 3, 5, 7, 9, 12, 40})
+			}
+		}
+	}
 	// events
 	es := nameSet{}
 	for k := r.Range(0, 3); k > 0; k-- {
@@ -425,7 +436,14 @@ func genEntityOpt(r *vh.Rand, second bool, forcedName string) *entityDecl {
 		if r.Chance(50) {
 			enumName = vh.Pick(r, []string{"Kind", "Colour", "level_type", "Mode"}) + d.schemaSuffix()
 			opts := [][]string{{"A", "B"}, {"RED", "GREEN", "DARK_BLUE"}, {"LOW"}, {"UNSPECIFIED", "ON", "OFF"}}
-			d.Schemas = append(d.Schemas, eSchema{Kind: 2, Name: enumName, Options: vh.Pick(r, opts)})
+			en := eSchema{Kind: 2, Name: enumName, Options: vh.Pick(r, opts)}
+			if r.Chance(30) {
+				en.OptionNum = make([]int, len(en.Options))
+				for i := 1; i < len(en.Options); i++ {
+					en.OptionNum[i] = vh.Pick(r, []int{1, 4, 6, 9})
+				}
+			}
+			d.Schemas = append(d.Schemas, en)
 		}
 		if r.Chance(40) {
 			oneofName = vh.Pick(r, []string{"Choice", "Payload", "Either"}) + d.schemaSuffix()
@@ -557,19 +575,26 @@ func emptyMethod(name, path string) eMethod {
 }
 
 var negClasses = []negClass{
-	{"optional-required", 4, func(r *vh.Rand, d *entityDecl) {
-		// buildProperty: a field cannot be both required (or a primary key) and optional
-		switch {
-		case len(d.Data) > 0 && r.Bool():
-			d.Data[0].Required, d.Data[0].Optional = true, true
-		case len(d.Events) > 0 && len(d.Events[0].Fields) > 0 && r.Bool():
-			d.Events[0].Fields[0].Required, d.Events[0].Fields[0].Optional = true, true
-		default:
-			k := &d.Keys[r.Intn(len(d.Keys))]
-			if !k.Key {
-				k.uField = genKeyTyped(r, k.Name)
-			}
-			k.Primary, k.Foreign, k.Optional, k.Required = true, nil, true, false
+	// buildProperty: a field cannot be both required and optional ...
+	{"optional-required-data", 4, func(r *vh.Rand, d *entityDecl) {
+		f := genScalarField(r, "bothWays")
+		f.Required, f.Optional = true, true
+		d.Data = append(d.Data, f)
+	}},
+	{"optional-required-event-field", 4, func(r *vh.Rand, d *entityDecl) {
+		f := genScalarField(r, "bothWays")
+		f.Required, f.Optional = true, true
+		d.Events = append(d.Events, eEvent{Name: "WithBoth", Fields: []uField{f}})
+	}},
+	// ... and a PRIMARY key is required, so `key x ? key:id62 { primary = true }` is the same clash
+	{"primary-optional-key", 4, func(r *vh.Rand, d *entityDecl) {
+		k := eKey{uField: genKeyTyped(r, "optPrimary")}
+		k.Primary, k.Foreign, k.Optional, k.Required, k.Bang = true, nil, true, false, r.Bool()
+		k.Shard = r.Bool()
+		if r.Bool() {
+			d.Keys = append(d.Keys, k)
+		} else {
+			d.Keys = append([]eKey{k}, d.Keys...)
 		}
 	}},
 	{"dangling-reference", 3, func(r *vh.Rand, d *entityDecl) {
@@ -617,6 +642,15 @@ var negClasses = []negClass{
 	{"status-unspecified-not-first", 6, func(r *vh.Rand, d *entityDecl) {
 		// only a FIRST option ending in UNSPECIFIED takes slot 0; later it repeats the generated zero value
 		d.Status = []string{vh.Pick(r, []string{"ACTIVE", "NEW"}), "DONE", "UNSPECIFIED"}
+		d.StatusNum = nil
+		if d.Query != nil {
+			d.Query.DefaultStatus = nil
+		}
+	}},
+	{"unspecified-first-with-number", 6, func(r *vh.Rand, d *entityDecl) {
+		// a first status ending in UNSPECIFIED takes slot 0 only when it declares no number
+		d.Status = []string{"UNSPECIFIED", "ACTIVE", "DONE"}
+		d.StatusNum = []int{vh.Pick(r, []int{1, 3, 7}), 0, 0}
 		if d.Query != nil {
 			d.Query.DefaultStatus = nil
 		}
@@ -660,7 +694,7 @@ var negClasses = []negClass{
 		d.Commands = append(d.Commands, eCommand{Name: ptr("Twins"), Methods: []eMethod{emptyMethod("SameOp", "a"), emptyMethod("SameOp", "b")}})
 	}},
 	{"no-status", 7, func(r *vh.Rand, d *entityDecl) {
-		d.Status = nil
+		d.Status, d.StatusNum = nil, nil
 		if d.Query != nil {
 			d.Query.DefaultStatus = nil
 		}
@@ -1128,7 +1162,7 @@ func oracleC17(res *vh.Result, caseNo int, d *entityDecl, dump *dumped, in any) 
 			fail("C17 status enum does not start with UNSPECIFIED = 0", "statuses are numbered in declaration order after UNSPECIFIED", fmt.Sprint(vals))
 		}
 		decl := d.Status
-		if len(decl) > 0 && strings.HasSuffix(decl[0], "UNSPECIFIED") {
+		if len(decl) > 0 && strings.HasSuffix(decl[0], "UNSPECIFIED") && (len(d.StatusNum) == 0 || d.StatusNum[0] == 0) {
 			decl = decl[1:]
 		}
 		if len(vals) != len(decl)+1 {
